@@ -94,4 +94,25 @@ structure Dispatch where
   enc : List (Nat × Nat)
   deriving Repr, Inhabited
 
+/-- where a bit-field setter of nasType writes -/
+inductive SetTarget where
+  | octet                -- `a.Octet`
+  | octetAt              -- `a.Octet[i]`
+  | bufferAt             -- `a.Buffer[i]`
+  deriving DecidableEq, Repr, Inhabited
+
+/-- `TGT = (TGT & keep) + ((v & take) << shift)` in `uint8` (written by `gen nassetters`) -/
+structure BitSet where
+  target : SetTarget
+  idx : Nat
+  keep : Nat
+  take : Nat
+  shift : Nat
+  deriving DecidableEq, Repr, Inhabited
+
+/-- `copy(a.Buffer, v)` -/
+inductive CopySet where
+  | buffer
+  deriving DecidableEq, Repr, Inhabited
+
 end Stgutg.Nas
